@@ -365,6 +365,10 @@ class Program:
             elif isinstance(st, ast.Assign):
                 for t in st.targets:
                     if isinstance(t, ast.Name):
+                        if isinstance(st.value, ast.Name) and st.value.id in c.methods:
+                            # `handle_req = _handle_unbuffered` in the class body: another name of the same method
+                            c.methods.setdefault(t.id, []).append(c.methods[st.value.id][-1])
+                            continue
                         c.attrs[t.id] = st.value
                         c.attr_order.append((t.id, st.value))
             elif isinstance(st, ast.AnnAssign) and isinstance(st.target, ast.Name):
